@@ -314,10 +314,20 @@ func tryReplay(verif, prop string, o *Obligation, rf *replayFile) {
 			}
 		}
 	}
-	if tmplName == "" || (o.Res.Verdict != VSat && !o.candidate && fv.replayArgs != nil) {
+	propLevel := false
+	if t := propReplay[prop]; t != "" && (tmplName == "" || !hasProp(fv.C.Props, prop)) {
+		// the contract serves this property through one clause only (or names no template): the
+		// property's own argument-less replay decides
+		tmplName = t
+		propLevel = true
+	}
+	if tmplName == "" || (o.Res.Verdict != VSat && !o.candidate && fv.replayArgs != nil && !propLevel) {
 		return
 	}
 	args, ok := fv.renderReplayArgs(o.Res.Output)
+	if propLevel {
+		args, ok = map[string]string{}, true
+	}
 	if !ok {
 		rf.ReplayOut = "model did not give values for all replay inputs"
 		return
